@@ -316,7 +316,7 @@ PROPS["C07"] = {
     "exhaustive_checks": ["C07schedules"],
     "tests": [
         {"name": "TestProp_C07_Schedules", "kind": "plain", "quick": {"shards": 8, "timeout": 500}, "thorough": {"shards": 16, "timeout": 3000}},
-        {"name": "TestProp_C07_Random", "quick": {"shards": 4, "checks": 100, "timeout": 500}, "thorough": {"shards": 8, "checks": 3000, "timeout": 3000}},
+        {"name": "TestProp_C07_Random", "quick": {"shards": 4, "checks": 100, "timeout": 500}, "thorough": {"shards": 8, "checks": 2000, "timeout": 3000}},
         {"name": "TestKnown_C07_Collision", "witness_only": True},
     ],
 }
